@@ -4,6 +4,6 @@ CONSTANTS MinN = 1
   Limits = {0,1,2}
   MaxFail = 1
   RootSets = 1
-INVARIANTS OnceEach DepsFirst BoundNoErr ReturnAfterAll ResultOK RootsClosure ChanBounded
+INVARIANTS OnceEach DepsFirst BoundAlways ReturnAfterAll ResultOK RootsClosure ChanBounded
 PROPERTY Live
 CHECK_DEADLOCK TRUE
